@@ -16,6 +16,7 @@
   That DEFLATE itself round-trips is decided by the independent decoder/encoder oracles.
 -/
 import WsVerif.Model.Flate
+import WsVerif.Model.FlateFrame
 import WsVerif.Proofs.Bufio
 namespace Ws.C12
 open Ws
@@ -268,5 +269,51 @@ theorem sufrd_drain_all (sizes : List Nat) (r : SufRd) (hp : r.pos ≤ 9) (out :
 
 example : (SufRd.drain { src := some { chunks := [[1, 2], [3]], fin := .eof } } [1, 5, 4, 2, 100, 1]).1
     = [1, 2, 3, 0, 0, 255, 255, 1, 0, 0, 255, 255] := by decide
+
+/-! ### the frame-level helpers -/
+
+/-- Neither helper touches a non-final frame, whatever its bits, opcode or payload. -/
+theorem helpers_refuse_non_final (codec : Bytes → Option Bytes) (h : Header) (p : Bytes) (hf : h.fin = false) :
+    compressFrame codec h p = .error .fragmented ∧ decompressFrame codec h p = .error .fragmented := by
+  unfold compressFrame decompressFrame; simp [hf]
+
+theorem rsv_bits : ∀ r, r < 8 → r &&& 4 = 0 → (r ||| 4) &&& 3 = r ∧ ((r ||| 4) &&& 4 != 0) = true := by decide
+
+/-- A final text/binary frame whose compression bit is clear, through CompressFrame and back through
+    DecompressFrame: the compressed frame differs from the original in the compression bit, the
+    length and the payload only; decompressing gives the original header and payload back. The codec's
+    own round trip (`decomp (comp p) = p`) is the hypothesis — DEFLATE is not the library's. -/
+theorem frame_roundtrip (comp decomp : Bytes → Option Bytes) (h : Header) (p c : Bytes)
+    (hf : h.fin = true) (hop : opIsData h.op = true) (hnc : h.op ≠ opContinuation)
+    (hr : h.rsv < 8) (hb : h.rsv &&& 4 = 0) (hl : h.len = p.length)
+    (hc : comp p = some c) (hd : decomp c = some p) :
+    compressFrame comp h p = .ok ({ h with rsv := h.rsv ||| 4, len := c.length }, c)
+    ∧ decompressFrame decomp { h with rsv := h.rsv ||| 4, len := c.length } c = .ok (h, p) := by
+  obtain ⟨h1, h2⟩ := rsv_bits h.rsv hr hb
+  have hne : (h.op == opContinuation) = false := by simpa using hnc
+  constructor
+  · unfold compressFrame setBits
+    simp [hf, hc, hb, hop, hne]
+  · unfold decompressFrame unsetBits
+    simp only [hf, hop, hne, Bool.not_true, Bool.false_eq_true, ↓reduceIte, bne_iff_ne, ne_eq,
+      Bool.and_self, Bool.not_false, Bool.and_true]
+    simp only [h2, h1, hd]
+    cases h; simp_all
+
+/-- A frame whose compression bit is clear passes DecompressFrame untouched; the bit on a control or
+    continuation frame is refused. -/
+theorem decompress_plain_untouched (decomp : Bytes → Option Bytes) (h : Header) (p : Bytes)
+    (hf : h.fin = true) (hr : h.rsv < 8) (hb : h.rsv &&& 4 = 0) :
+    decompressFrame decomp h p = .ok (h, p) := by
+  have h3 : h.rsv &&& 3 = h.rsv := by
+    have : ∀ r, r < 8 → r &&& 4 = 0 → r &&& 3 = r := by decide
+    exact this _ hr hb
+  unfold decompressFrame unsetBits
+  by_cases hd : (opIsData h.op && h.op != opContinuation) = true
+  · simp only [hf, hd, hb, h3]; cases h; simp_all
+  · simp only [hf, hd, hb]; simp
+
+example : compressFrame (fun _ => some [1, 2]) { fin := true, rsv := 2, op := 1, masked := false, mask := Mask.zero, len := 3 } [7, 7, 7]
+    = .ok ({ fin := true, rsv := 6, op := 1, masked := false, mask := Mask.zero, len := 2 }, [1, 2]) := by rfl
 
 end Ws.C12
